@@ -691,11 +691,11 @@ def _execute(scn, keep_objects=False, prev_ctx=None):
         attach_load(scn['load'])
     init = scn.get('init')
 
-    def apply_ic():
+    def apply_ic(with_pwm=True):
         last = ctx.objs[ctx.chain[-1]]
         last.angular_position = Q(U.AngularPosition, init['position'])
         last.angular_speed = Q(U.AngularSpeed, init['speed'])
-        if init.get('pwm') is not None:
+        if init.get('pwm') is not None and with_pwm:
             ctx.objs[ctx.chain[0]].pwm = init['pwm']
     if init is not None:
         apply_ic()
@@ -760,7 +760,7 @@ def _execute(scn, keep_objects=False, prev_ctx=None):
                 except Exception as ex:      # noqa
                     rec['exc'] = _exc(ex)
                 if op.get('reapply') and init is not None:
-                    apply_ic()
+                    apply_ic(op.get('reapply_pwm', True))
             elif kind == 'set_pwm':
                 try:
                     pt.elements[0].pwm = op['value']
@@ -847,8 +847,18 @@ def _execute(scn, keep_objects=False, prev_ctx=None):
                     if op['attr'] == 'time':
                         pt.time[-1].to(op['unit'], inplace=True)
                     else:
-                        getattr(ctx.objs[op['elem']], op['attr']).to(
-                            op['unit'], inplace=True)
+                        q = getattr(ctx.objs[op['elem']], op['attr'])
+                        consts = [getattr(g.solver, nm, None) for nm in (
+                            'NULL_ANGULAR_SPEED', 'NULL_ANGULAR_ACCELERATION',
+                            'NULL_TORQUE')]
+                        if any(q is c for c in consts):
+                            # a held element's speed IS the solver's module
+                            # level constant: converting it in place would
+                            # change library-global state and leak into the
+                            # following scenarios of this process
+                            rec['skipped_alias'] = True
+                        else:
+                            q.to(op['unit'], inplace=True)
                 except Exception as ex:      # noqa
                     rec['exc'] = _exc(ex)
             elif kind == 'motor_probe':
